@@ -68,7 +68,11 @@ def make_values(rng, kind, pattern):
         vals = [rng.choice(FRACS + INTEGRAL_FLOATS) for _ in range(n)]
         if n:
             vals[rng.randrange(n)] = rng.choice(FRACS)
-        if n >= 3 and rng.random() < 0.3:
+        if n >= 2 and rng.random() < 0.15:
+            # an infinite value among integral ones: the column is NOT integral as a whole
+            vals = [rng.choice([1.0, 2.0, -3.0, 100.0, 0.0]) for _ in range(n)]
+            vals[rng.randrange(n)] = rng.choice([float('inf'), float('-inf')])
+        elif n >= 3 and rng.random() < 0.3:
             # both zeros (equal by value, different strings) next to a fractional value
             i, j, k = rng.sample(range(n), 3)
             vals[i], vals[j], vals[k] = rng.choice([(0.0, -0.0), (-0.0, 0.0)]) + (rng.choice(FRACS),)
@@ -225,7 +229,11 @@ def run_case(case, rec, ssj=None):
     before = T.snapshot_df(df)
     tag = tag[:-2] + ', column label %r): ' % (CC,) if CC != 'c' else tag
     try:
-        res = ssj.dataframe_column_to_str(df, CC, inplace=inplace, return_col=return_col)
+        if rng.random() < 0.3:       # the flags in their published positions
+            rec.count('positional_flag_calls')
+            res = ssj.dataframe_column_to_str(df, CC, inplace, return_col)
+        else:
+            res = ssj.dataframe_column_to_str(df, CC, inplace=inplace, return_col=return_col)
     except AssertionError as e:
         if inplace and return_col:
             rec.count('rejected_flag_combination')
